@@ -519,8 +519,11 @@ class Interp:
                     return getattr(recv, fn.attr)(*args)
                 except (ValueError, TypeError, IndexError, ZeroDivisionError, OverflowError) as exc:
                     raise ExcRaised(Ref(f'builtin:{type(exc).__name__}'))
-            if isinstance(recv, dict) and fn.attr in ('get', 'items', 'keys', 'values', 'setdefault'):
-                res = getattr(recv, fn.attr)(*args)
+            if isinstance(recv, dict) and fn.attr in ('get', 'items', 'keys', 'values', 'setdefault', 'pop', 'clear', 'copy'):
+                try:
+                    res = getattr(recv, fn.attr)(*args)
+                except KeyError:
+                    raise ExcRaised(Ref('builtin:KeyError'))
                 return list(res) if fn.attr in ('items', 'keys', 'values') else res
             if isinstance(recv, (set, dict)) and fn.attr in ('add', 'update', 'discard'):
                 return getattr(recv, fn.attr)(*args)
@@ -621,6 +624,21 @@ class Interp:
                     if fn.value.id in self.env:
                         return self._inline(cm, meth, [self.env[fn.value.id]] + args, kwargs)
                     return self._inline(cm, meth, args, kwargs, skip_first=True)
+        if isinstance(fn, ast.Name) and fn.id == 'getattr' and fn.id not in self.env and len(args) in (2, 3) and isinstance(args[1], str):
+            obj = args[0]
+            if isinstance(obj, Rec):
+                if args[1] in obj.f:
+                    return obj.f[args[1]]
+                if len(args) == 3:
+                    return args[2]
+                raise ExcRaised(Ref('builtin:AttributeError'))
+            if isinstance(obj, PyModel):
+                if hasattr(obj, args[1]):
+                    return getattr(obj, args[1])
+                if len(args) == 3:
+                    return args[2]
+                raise ExcRaised(Ref('builtin:AttributeError'))
+            raise Unmodelled('getattr on a symbolic value')
         if isinstance(fn, ast.Name) and fn.id in ('filter', 'map') and fn.id not in self.env and len(args) == 2:
             seq = args[1]
             if isinstance(seq, (Opaque, Ref, Rec)):
@@ -648,7 +666,7 @@ class Interp:
                 if isinstance(a_, (Opaque, Ref, Rec)):
                     return Opaque(fn.id)
             try:
-                return _PURE[fn.id](*args)
+                return _PURE[fn.id](*args, **kwargs)
             except (ValueError, TypeError) as exc:
                 raise ExcRaised(Ref(f'builtin:{type(exc).__name__}'))
         raise Unmodelled(f'call {text}(...) at line {n.lineno}')
